@@ -478,6 +478,9 @@ def run(rep, tier):
             # a copy that is spread over threads must not apply the crop offset to a band twice
             from . import c08
             rep.call(c08.offset_once, rep, prog, "C12.offset-once")
+            # ... and the bands of the source must start at the offset they were asked for
+            from . import c14
+            rep.call(c14.start_used, rep, prog, "C12.band-start-used")
             if tier == "quick":
                 continue
         rep.call(fast_path, rep, prog, "C12.fast-path")
